@@ -119,3 +119,50 @@ MANIFEST_TEXT = {
         "technique": "output monitor (message parser) over rejected texts with layout variants",
     },
 }
+
+PROPS.update({
+    "C03": {
+        "level": "exploration",
+        "budget": {"quick": 45, "thorough": 600},
+        "min_evaluations": 20000,
+        "min_counters": {"accepted_generated": 2000, "accepted_ast-mutant": 10000, "accepted_printed": 2000, "accepted_token-mutant": 3000, "accepted_example-mutant": 2000},
+        "rule": ("Texts: G1 programs, their single-edit AST mutants (type / arity / size / scope / name / order / signature edits, "
+                 "including the cases the book leaves open: duplicate parameter names, redefinitions), the pretty printer's "
+                 "output, token-level mutants of the programs and of the shipped examples, and corpus regressions. Every "
+                 "text that TemplateProgram::new accepts is instantiated with arguments generated from parameters(), with "
+                 "debug symbols off and on: instantiate must return Ok (never `Failed to compile to Simplicity`, never a "
+                 "panic), commit() must not panic and must have type 1 -> 1. distinct_nontrivial = distinct accepted texts."),
+        "assumptions": ["arguments consistent with parameters() are random values of the reported types"],
+    },
+    "C04": {
+        "level": "exploration",
+        "budget": {"quick": 45, "thorough": 600},
+        "min_evaluations": 50000,
+        "min_counters": {"well_formed_accepted": 10000, "ill_formed_rejected": 50000},
+        "rule": ("G1 programs (expected: accepted) and ~40 single-edit mutants of each (operators: type edits incl. same-layout "
+                 "replacements, argument / element / pattern arity +-1, array size +-1, list padded to its bound, literal = "
+                 "2^N or digit count +-1, renamed / undefined / reordered variables, functions and aliases, duplicate names in "
+                 "a pattern, witness reuse and witness in a function, main missing / doubled / with parameter / with result, "
+                 "fold / loop signature edits, casts between unequal layouts, incompatible match arms, statement deletion / "
+                 "duplication / reordering, final expression added / removed). Each mutant is classified by the independent "
+                 "static checker (check_static.rs, written from the book): WellFormed -> must be accepted, IllFormed(rule) -> "
+                 "must be rejected, Unspecified -> not judged. Evidence lists every rule with the number of mutants that "
+                 "exercised it. distinct_nontrivial = distinct program texts judged."),
+        "assumptions": ["the static rules are the book's; cases the book leaves open (duplicate parameter names, alias / function redefinition) are not judged"],
+    },
+})
+
+MANIFEST_TEXT.update({
+    "C03": {
+        "text": "Totality exploration of the back end on whatever the front end lets through, fed by five text families aimed at analysis checks that are weaker than code generation.",
+        "design_ref": "DESIGN.md 6 C03",
+        "note": "Found F3 (tuple pattern arity; fixed) and F4 (duplicate parameter names).",
+        "technique": "stage-outcome monitor (Ok / Err text / panic) over accepted texts from generators and mutators",
+    },
+    "C04": {
+        "text": "Differential exploration of the front end's accept/reject decision against an independent static checker on generated programs and their near misses.",
+        "design_ref": "DESIGN.md 6 C04",
+        "note": "Trusted: check_static.rs. Found F3 (fixed).",
+        "technique": "differential oracle (independent static checker) over near-miss mutants",
+    },
+})
